@@ -195,4 +195,164 @@ example : (mpq_mul exm 4 5 2 3 4 5 6 7 8 9).ok = true ∧ valOf (mpq_mul exm 4 5
 -- the same into op1 and into a third variable
 example : valOf (mpq_mul exm 2 3 2 3 4 5 6 7 8 9) 2 = -(4 * (B : Int)) ∧ valOf (mpq_mul exm 0 1 2 3 4 5 6 7 8 9) 1 = 15 := by decide +kernel
 
+/-! ## mpq_div (mpq/div.c), non-zero divisor -/
+
+/-- mpq_div with NUM (op2) ≠ 0, quot = (qn, qd) being op1, op2, both or a third variable — for EVERY assignment of ids in which
+    the two fields of quot differ (div.c reads no operand after its first store to quot: the numerator goes through `numtmp`):
+    five mpz_init'ed locals; DEN (quot) by mpz_mul at :58, NUM (quot) by mpz_set from numtmp at :62, then the sign of the
+    denominator is moved to the numerator by negating both size fields (:65-69).  No bad access, both fields well formed, the
+    denominator positive … the values are those of the C12 value model `Mpq.div`:
+    N = (n1/g1)(d2/g2), D = (n2/g1)(d1/g2) with g1 = gcd (n1, n2), g2 = gcd (d2, d1); result N/D or (-N)/(-D) when D < 0. -/
+theorem mpq_div_alloc_safe (s : St) (qn qd an ad bn bd g1 g2 t1 t2 nt : Nat) (hs : s.ok = true)
+    (hop : ∀ x ∈ [qn, qd, an, ad, bn, bd], OWF (s.h x))
+    (hf : qn ≠ qd) (hfr : Fresh [g1, g2, t1, t2, nt] [qn, qd, an, ad, bn, bd])
+    (hda : 0 < valOf s ad) (hnz : (s.h bn).size ≠ 0) :
+    let G1 := Mpq.zgcd (valOf s an) (valOf s bn)
+    let G2 := Mpq.zgcd (valOf s bd) (valOf s ad)
+    let N := Mpq.divexact (valOf s an) G1 * Mpq.divexact (valOf s bd) G2
+    let D := Mpq.divexact (valOf s bn) G1 * Mpq.divexact (valOf s ad) G2
+    ∃ s', mpq_div s qn qd an ad bn bd g1 g2 t1 t2 nt = some s' ∧
+      s'.ok = true ∧ OWF (s'.h qn) ∧ OWF (s'.h qd) ∧
+      (∀ x, x ≠ qn → x ≠ qd → x ∉ [g1, g2, t1, t2, nt] → s'.h x = s.h x) ∧
+      valOf s' qn = (if D < 0 then -N else N) ∧ valOf s' qd = (if D < 0 then -D else D) := by
+  intro G1 G2 N D
+  obtain ⟨hN, hS⟩ := hfr
+  simp only [List.nodup_cons, List.mem_cons, List.not_mem_nil, or_false, not_or, List.nodup_nil, and_true, not_false_eq_true] at hN
+  obtain ⟨⟨n12, n13, n14, n15⟩, ⟨n23, n24, n25⟩, ⟨n34, n35⟩, n45⟩ := hN
+  have S1 := hS g1 (by simp); have S2 := hS g2 (by simp); have S3 := hS t1 (by simp); have S4 := hS t2 (by simp)
+  have S5 := hS nt (by simp)
+  simp only [List.mem_cons, List.not_mem_nil, or_false, not_or] at S1 S2 S3 S4 S5
+  obtain ⟨a1, a2, a3, a4, a5, a6⟩ := S1
+  obtain ⟨b1, b2, b3, b4, b5, b6⟩ := S2
+  obtain ⟨c1, c2, c3, c4, c5, c6⟩ := S3
+  obtain ⟨d1, d2, d3, d4, d5, d6⟩ := S4
+  obtain ⟨f1, f2, f3, f4, f5, f6⟩ := S5
+  have Oqn := hop qn (by simp); have Oqd := hop qd (by simp); have Oan := hop an (by simp)
+  have Oad := hop ad (by simp); have Obn := hop bn (by simp); have Obd := hop bd (by simp)
+  have hbn0 : valOf s bn ≠ 0 := valOf_ne_zero s bn Obn hnz
+  set s0 := mpzInit (mpzInit (mpzInit (mpzInit (mpzInit s g1) g2) t1) t2) nt with hs0
+  have ok0 : s0.ok = true := by simpa [s0] using hs
+  have I : ∀ x, OWF (s.h x) → OWF (s0.h x) := fun x h =>
+    mpzInit_owf _ _ _ (mpzInit_owf _ _ _ (mpzInit_owf _ _ _ (mpzInit_owf _ _ _ (mpzInit_owf _ _ _ h))))
+  have F0 : ∀ x, x ≠ g1 → x ≠ g2 → x ≠ t1 → x ≠ t2 → x ≠ nt → s0.h x = s.h x := by
+    intro x h1 h2 h3 h4 h5
+    rw [hs0, mpzInit_other _ _ h5, mpzInit_other _ _ h4, mpzInit_other _ _ h3, mpzInit_other _ _ h2, mpzInit_other _ _ h1]
+  have Og1 : OWF (s0.h g1) := by
+    rw [hs0, mpzInit_other _ _ n15, mpzInit_other _ _ n14, mpzInit_other _ _ n13, mpzInit_other _ _ n12]; exact mpzInit_owf_self _ _
+  have Og2 : OWF (s0.h g2) := by
+    rw [hs0, mpzInit_other _ _ n25, mpzInit_other _ _ n24, mpzInit_other _ _ n23]; exact mpzInit_owf_self _ _
+  have Ot1 : OWF (s0.h t1) := by rw [hs0, mpzInit_other _ _ n35, mpzInit_other _ _ n34]; exact mpzInit_owf_self _ _
+  have Ot2 : OWF (s0.h t2) := by rw [hs0, mpzInit_other _ _ n45]; exact mpzInit_owf_self _ _
+  have Ont : OWF (s0.h nt) := mpzInit_owf_self _ _
+  have V0 : ∀ x, x ≠ g1 → x ≠ g2 → x ≠ t1 → x ≠ t2 → x ≠ nt → valOf s0 x = valOf s x := by
+    intro x h1 h2 h3 h4 h5; unfold valOf; rw [F0 x h1 h2 h3 h4 h5]
+  have van := V0 an (Ne.symm a3) (Ne.symm b3) (Ne.symm c3) (Ne.symm d3) (Ne.symm f3)
+  have vad := V0 ad (Ne.symm a4) (Ne.symm b4) (Ne.symm c4) (Ne.symm d4) (Ne.symm f4)
+  have vbn := V0 bn (Ne.symm a5) (Ne.symm b5) (Ne.symm c5) (Ne.symm d5) (Ne.symm f5)
+  have vbd := V0 bd (Ne.symm a6) (Ne.symm b6) (Ne.symm c6) (Ne.symm d6) (Ne.symm f6)
+  -- :47-48
+  have W1 := mpz_gcd_wrote s0 g1 an bn ok0 Og1
+  have W2 := mpz_gcd_wrote _ g2 bd ad W1.ok (W1.owf_of g2 Og2)
+  have hG1pos : 0 < G1 := by
+    show (0 : Int) < ((Int.gcd (valOf s an) (valOf s bn) : Nat) : Int)
+    exact_mod_cast Int.gcd_pos_of_ne_zero_right _ hbn0
+  have hG2pos : 0 < G2 := by
+    show (0 : Int) < ((Int.gcd (valOf s bd) (valOf s ad) : Nat) : Int)
+    exact_mod_cast Int.gcd_pos_of_ne_zero_right _ (by omega)
+  have e1 : valOf (mpz_gcd s0 g1 an bn) g1 = G1 := by rw [W1.val, van, vbn]; rfl
+  have e2 : valOf (mpz_gcd (mpz_gcd s0 g1 an bn) g2 bd ad) g2 = G2 := by
+    rw [W2.val, W1.val_other bd (Ne.symm a6), W1.val_other ad (Ne.symm a4), vbd, vad]; rfl
+  set s2 := mpz_gcd (mpz_gcd s0 g1 an bn) g2 bd ad with hs2
+  have e1' : valOf s2 g1 = G1 := by rw [W2.val_other g1 n12, e1]
+  have K2 : ∀ x, OWF (s0.h x) → OWF (s2.h x) := fun x h => W2.owf_of x (W1.owf_of x h)
+  have V2 : ∀ x, x ≠ g1 → x ≠ g2 → valOf s2 x = valOf s0 x := fun x h1 h2 => by
+    rw [W2.val_other x h2, W1.val_other x h1]
+  -- :50-51
+  have W3 := mpz_divexact_gcd_wrote s2 t1 an g1 W2.ok (K2 t1 Ot1) (K2 an (I an Oan)) (K2 g1 Og1) (by rw [e1']; exact hG1pos)
+    (by rw [e1', V2 an (Ne.symm a3) (Ne.symm b3), van]; exact Int.gcd_dvd_left _ _)
+  set s3 := mpz_divexact_gcd s2 t1 an g1 with hs3
+  have e2' : valOf s3 g2 = G2 := by rw [W3.val_other g2 n23, e2]
+  have K3 : ∀ x, OWF (s0.h x) → OWF (s3.h x) := fun x h => W3.owf_of x (K2 x h)
+  have W4 := mpz_divexact_gcd_wrote s3 t2 bd g2 W3.ok (K3 t2 Ot2) (K3 bd (I bd Obd)) (K3 g2 Og2) (by rw [e2']; exact hG2pos)
+    (by rw [e2', W3.val_other bd (Ne.symm c6), V2 bd (Ne.symm a6) (Ne.symm b6), vbd]; exact Int.gcd_dvd_left _ _)
+  set s4 := mpz_divexact_gcd s3 t2 bd g2 with hs4
+  have K4 : ∀ x, OWF (s0.h x) → OWF (s4.h x) := fun x h => W4.owf_of x (K3 x h)
+  -- :53 numtmp
+  have W5 := mpz_mul_wrote s4 nt t1 t2 W4.ok (K4 nt Ont) (K4 t1 Ot1) (K4 t2 Ot2)
+  set s5 := mpz_mul s4 nt t1 t2 with hs5
+  have K5 : ∀ x, OWF (s0.h x) → OWF (s5.h x) := fun x h => W5.owf_of x (K4 x h)
+  have vnum : valOf s5 nt = N := by
+    rw [W5.val, W4.val, W4.val_other t1 n34, W3.val, e2', e1', W3.val_other bd (Ne.symm c6),
+      V2 bd (Ne.symm a6) (Ne.symm b6), V2 an (Ne.symm a3) (Ne.symm b3), van, vbd]; rfl
+  have V5 : ∀ x, x ≠ g1 → x ≠ g2 → x ≠ t1 → x ≠ t2 → x ≠ nt → valOf s5 x = valOf s0 x := fun x h1 h2 h3 h4 h5 => by
+    rw [W5.val_other x h5, W4.val_other x h4, W3.val_other x h3, V2 x h1 h2]
+  have g1s5 : valOf s5 g1 = G1 := by rw [W5.val_other g1 n15, W4.val_other g1 n14, W3.val_other g1 n13, e1']
+  have g2s5 : valOf s5 g2 = G2 := by rw [W5.val_other g2 n25, W4.val_other g2 n24, e2']
+  have bns5 : valOf s5 bn = valOf s bn := by
+    rw [V5 bn (Ne.symm a5) (Ne.symm b5) (Ne.symm c5) (Ne.symm d5) (Ne.symm f5), vbn]
+  have ads5 : valOf s5 ad = valOf s ad := by
+    rw [V5 ad (Ne.symm a4) (Ne.symm b4) (Ne.symm c4) (Ne.symm d4) (Ne.symm f4), vad]
+  -- :55-56
+  have W6 := mpz_divexact_gcd_wrote s5 t1 bn g1 W5.ok (K5 t1 Ot1) (K5 bn (I bn Obn)) (K5 g1 Og1) (by rw [g1s5]; exact hG1pos)
+    (by rw [g1s5, bns5]; exact Int.gcd_dvd_right _ _)
+  set s6 := mpz_divexact_gcd s5 t1 bn g1 with hs6
+  have K6 : ∀ x, OWF (s0.h x) → OWF (s6.h x) := fun x h => W6.owf_of x (K5 x h)
+  have W7 := mpz_divexact_gcd_wrote s6 t2 ad g2 W6.ok (K6 t2 Ot2) (K6 ad (I ad Oad)) (K6 g2 Og2)
+    (by rw [W6.val_other g2 n23, g2s5]; exact hG2pos)
+    (by rw [W6.val_other g2 n23, g2s5, W6.val_other ad (Ne.symm c4), ads5]; exact Int.gcd_dvd_right _ _)
+  set s7 := mpz_divexact_gcd s6 t2 ad g2 with hs7
+  have K7 : ∀ x, OWF (s0.h x) → OWF (s7.h x) := fun x h => W7.owf_of x (K6 x h)
+  -- :58 DEN (quot), :62 NUM (quot)
+  have W8 := mpz_mul_wrote s7 qd t1 t2 W7.ok (K7 qd (I qd Oqd)) (K7 t1 Ot1) (K7 t2 Ot2)
+  set s8 := mpz_mul s7 qd t1 t2 with hs8
+  have K8 : ∀ x, OWF (s0.h x) → OWF (s8.h x) := fun x h => W8.owf_of x (K7 x h)
+  have vden : valOf s8 qd = D := by
+    rw [W8.val, W7.val, W7.val_other t1 n34, W6.val, W6.val_other g2 n23, g2s5, g1s5, W6.val_other ad (Ne.symm c4), ads5, bns5]; rfl
+  have W9 := mpz_set_wrote s8 qn nt W8.ok (K8 qn (I qn Oqn)) (K8 nt Ont)
+  set s9 := mpz_set s8 qn nt with hs9
+  have vn9 : valOf s9 qn = N := by
+    rw [W9.val, W8.val_other nt f2, W7.val_other nt (Ne.symm n45), W6.val_other nt (Ne.symm n35), vnum]
+  have vd9 : valOf s9 qd = D := by rw [W9.val_other qd (Ne.symm hf), vden]
+  have Oqd9 : OWF (s9.h qd) := W9.owf_of qd W8.owf
+  have F9 : ∀ x, x ≠ qn → x ≠ qd → x ∉ [g1, g2, t1, t2, nt] → s9.h x = s.h x := by
+    intro x h1 h2 h3
+    simp only [List.mem_cons, List.not_mem_nil, or_false, not_or] at h3
+    obtain ⟨x1, x2, x3, x4, x5⟩ := h3
+    rw [W9.frame x h1, W8.frame x h2, W7.frame x x4, W6.frame x x3, W5.frame x x5, W4.frame x x4, W3.frame x x3, W2.frame x x2,
+      W1.frame x x1, F0 x x1 x2 x3 x4 x5]
+  have hb : (s.SIZ bn == 0) = false := by simpa [St.SIZ] using hnz
+  have hiff := size_neg_iff s9 qd Oqd9
+  rw [vd9] at hiff
+  by_cases hD : D < 0
+  · -- :65-69 the sign moves to the numerator
+    have hsz : s9.SIZ qd < 0 := hiff.mpr hD
+    obtain ⟨O1, E1⟩ := setSize_neg s9 qd Oqd9
+    set sa := s9.setSize qd (-(s9.h qd).size) with hsa
+    have Oqn_a : OWF (sa.h qn) := by rw [hsa, setSize_other _ _ _ hf]; exact W9.owf
+    obtain ⟨O2, E2⟩ := setSize_neg sa qn Oqn_a
+    refine ⟨sa.setSize qn (-(sa.h qn).size), ?_, ?_, O2, ?_, ?_, ?_, ?_⟩
+    · simp only [mpq_div, hb, Bool.false_eq_true, if_false]
+      rw [if_pos hsz]; rfl
+    · simpa [sa] using W9.ok
+    · rw [setSize_other _ _ _ (Ne.symm hf)]; exact O1
+    · intro x h1 h2 h3
+      rw [setSize_other _ _ _ h1, hsa, setSize_other _ _ _ h2]; exact F9 x h1 h2 h3
+    · rw [if_pos hD, E2]
+      have : valOf sa qn = valOf s9 qn := by unfold valOf; rw [hsa, setSize_other _ _ _ hf]
+      rw [this, vn9]
+    · rw [if_pos hD]
+      have : valOf (sa.setSize qn (-(sa.h qn).size)) qd = valOf sa qd := by
+        unfold valOf; rw [setSize_other _ _ _ (Ne.symm hf)]
+      rw [this, E1, vd9]
+  · have hsz : ¬ s9.SIZ qd < 0 := fun h => hD (hiff.mp h)
+    refine ⟨s9, ?_, W9.ok, W9.owf, Oqd9, F9, by rw [if_neg hD, vn9], by rw [if_neg hD, vd9]⟩
+    simp only [mpq_div, hb, Bool.false_eq_true, if_false]
+    rw [if_neg hsz]
+
+-- (6/35) / (-(14·B)/9): gcd (6, 14B) = 2, gcd (9, 35) = 1; quotient 27/(-245·B), the sign moved: -27/(245·B); quot is op2 and op1
+example : (mpq_div exm 4 5 2 3 4 5 6 7 8 9 10).map (fun s => (s.ok, valOf s 4, valOf s 5)) = some (true, -27, 245 * (B : Int)) := by
+  decide +kernel
+example : (mpq_div exm 2 3 2 3 4 5 6 7 8 9 10).map (fun s => (s.ok, valOf s 2, valOf s 3)) = some (true, -27, 245 * (B : Int)) := by
+  decide +kernel
+
 end Mpir.AllocSafe6
